@@ -157,6 +157,10 @@ def entries(db, qt, cat, base, other, cur=None):
         ("db.Convert(qt,u,base,ndarray)", lambda u: db.Convert(qt, u, base, np.array([x, 1.0]))),
         ("db.Convert(qt,base,u,int ndarray)", lambda u: db.Convert(qt, base, u, np.array([3, 1]))),
         ("db.Convert(qt,[(u,1)],[(base,1)],x)", lambda u: db.Convert(qt, [(u, 1)], [(base, 1)], x)),
+        ("db.Convert(qt,[(u,2)],[(base,2)],x)", lambda u: db.Convert(qt, [(u, 2)], [(base, 2)], x)),
+        ("db.Convert(qt,[(base,-1)],[(u,-1)],x)", lambda u: db.Convert(qt, [(base, -1)], [(u, -1)], x)),
+        ("db.Convert(qt,[(u,3)],[(other,3)],x)", lambda u: db.Convert(qt, [(u, 3)], [(other, 3)], x)),
+        ("squared Scalar.GetValue([(u,2)])", lambda u: (Scalar(cat, x, base) * Scalar(cat, x, base)).GetValue([(u, 2)])),
         ("db.Convert(qt,u,base,FractionValue)", lambda u: db.Convert(qt, u, base, FractionValue(3, (1, 4)))),
         ("db.Convert(qt,base,u,FractionValue)", lambda u: db.Convert(qt, base, u, FractionValue(3, (1, 4)))),
         ("db.Convert(category,u,other,FractionValue)", lambda u: db.Convert(cat, u, other, FractionValue(2.5))),
@@ -348,6 +352,37 @@ def first_use_orders(ctx, spell, shard, nshards):
                 del first
 
 
+def database_that_is_not_the_singleton(ctx, spell, shard, nshards):
+    """The shipped table asked through its own methods while *another*, smaller database is the singleton of the moment: what
+    a spelling means to a database is that database's business."""
+    import numpy as np
+    from barril.units import UnitDatabase
+
+    full = table.build("posc")
+    small = UnitDatabase()
+    small.AddUnitBase("length", "metre", "m")
+    small.AddCategory("length", "length")
+    with table.pushed(small):
+        for i, (leg, cur) in enumerate(sorted(spell.items())):
+            if i % nshards != shard:
+                continue
+            qt = full.GetQuantityType(cur)
+            base = full.GetBaseUnit(qt)
+            forms = (
+                ("full.Convert(qt,u,base,x)", lambda u: full.Convert(qt, u, base, 2.5)), ("full.Convert(qt,base,u,list)", lambda u: full.Convert(qt, base, u, [2.5, 1.0])), ("full.Convert(qt,u,base,ndarray)", lambda u: full.Convert(qt, u, base, np.array([2.5]))),
+                ("full.GetDefaultCategory(u)", lambda u: full.GetDefaultCategory(u)), ("full.GetInfo(qt,u)", lambda u: full.GetInfo(qt, u).unit), ("full.GetUnitName(u)", lambda u: full.GetUnitName(u)),
+                ("full.Convert(qt,[(u,2)],[(base,2)],x)", lambda u: full.Convert(qt, [(u, 2)], [(base, 2)], 2.5)),
+            )  # fmt: skip
+            for name, fn in forms:
+                ctx.ev()
+                ctx.nt(("not the singleton", leg, name))
+                ol, oc = outcome(lambda: fn(leg)), outcome(lambda: fn(cur))
+                if ol != oc:
+                    ctx.violation("not-the-singleton:legacy-differs-from-current:%s" % name, {"legacy": leg, "current": cur, "with_legacy": ol, "with_current": oc}, replay={"legacy": leg, "current": cur})
+                elif oc[0] == "ok":
+                    ctx.count("pairs agreeing on a value on a database that is not the singleton")
+
+
 def categories_registered_later(ctx, spell, shard, nshards):
     """A database filled step by step (`fill_categories=False`, the categories added afterwards): both spellings are asked
     about while the unit has no category (both are refused alike), the category is registered, both are asked again -
@@ -521,6 +556,7 @@ def run(ctx):
         ctx.inconclusive_if(bool(dead) and ctx.nshards == 1, "entry forms that never produced a value: %s" % dead[:5])
         first_use_orders(ctx, spell, ctx.shard, ctx.nshards)
         categories_registered_later(ctx, spell, ctx.shard, ctx.nshards)
+        database_that_is_not_the_singleton(ctx, spell, ctx.shard, ctx.nshards)
         if ctx.shard == 0:
             second_database(ctx, subs)
             ctx.sample({"spellings": sorted(spell.items())[:12]})
